@@ -3,8 +3,8 @@ O = 56
 Thr = 171
 Mutant = 0
 Lens = {1, 20, 60}
-ReadSizes = {1, 5, 100}
-MaxPuts = 9
+ReadSizes = {2, 45, 100}
+MaxPuts = 7
 INIT Init
 NEXT Next
 INVARIANT I_Ledger
